@@ -52,6 +52,8 @@ def apply_ops(filler_ctx, ops, base):
 def feed(dataset_filler, ops, base):
     with dataset_filler as f:
         apply_ops(f, ops, base)
+    if base % 200 == 0:
+        dataset_filler.get_updated_infos()      # a writer may look at what it produced (e.g. to report counts); looking must not change anything
     return base
 
 
